@@ -81,6 +81,9 @@ pub struct Plan {
     /// bit k: the lines of task k are written in two parts with a pause longer than the flush tick in between
     #[serde(default)]
     pub split_lines: u32,
+    /// bit k: task k writes a burst of 150-400 lines at once (tens of KiB per flush)
+    #[serde(default)]
+    pub bursts: u32,
 }
 
 #[derive(Debug, Clone, Serialize, Deserialize)]
@@ -99,8 +102,9 @@ pub fn plan(max_layer: usize, chatty: bool) -> impl Strategy<Value = Plan> {
         proptest::option::weighted(0.2, (any::<u16>(), any::<u16>(), 1i32..=9)),
         prop_oneof![1 => Just(0u32), 2 => any::<u32>()],
         prop_oneof![2 => Just(0u32), 1 => any::<u32>().prop_map(|x| x & 0x1111_1111)],
+        prop_oneof![2 => Just(0u32), 1 => any::<u32>().prop_map(|x| x & 0x2222_2222)],
     )
-        .prop_map(|(layers, picks, ncmd, tasks, fail, unterminated, split_lines)| Plan {
+        .prop_map(|(layers, picks, ncmd, tasks, fail, unterminated, split_lines, bursts)| Plan {
             layers,
             picks,
             ncmd,
@@ -108,6 +112,7 @@ pub fn plan(max_layer: usize, chatty: bool) -> impl Strategy<Value = Plan> {
             fail,
             unterminated,
             split_lines,
+            bursts,
         })
 }
 
@@ -181,8 +186,18 @@ pub fn install(env: &Env, plan: &Plan, tag_lines: bool) -> Setup {
             k += 1;
             let task_no = k - 1;
             let split = !tag_lines_only_whole && plan.split_lines >> (task_no % 32) & 1 == 1;
+            let burst = plan.bursts >> (task_no % 32) & 1 == 1;
             let mk = |stream: &str, lines: usize, unterminated: bool| -> Vec<Step> {
                 let mut v = vec![];
+                if burst && lines > 0 {
+                    // one write of many multi-byte lines: tens of KiB reach the listener in one flush
+                    let n = 150 + (pause as usize * 7) % 250;
+                    let mut b = vec![];
+                    for j in 0..n {
+                        b.extend_from_slice(format!("{}¦{}¦{}¦b{} 出力 ünï¢ode ✓ line\n", t.path, c, stream, j).as_bytes());
+                    }
+                    v.push(Step::W(b));
+                }
                 for j in 0..lines {
                     let last = j + 1 == lines;
                     let nl = if last && unterminated { "" } else { "\n" };
@@ -616,6 +631,7 @@ pub fn check_c20(case: &TailCase, w: usize) -> CheckResult {
         .class_if(admitted_nonempty == 0, "nothing-admitted")
         .class_if(streams.len() == 2, "both-streams-printed")
         .class_if(case.plan.split_lines != 0, "lines-split-across-the-flush-tick")
+        .class_if(case.plan.bursts != 0, "bursts>8KiB-of-multibyte-lines")
         .class(&format!("tokio-workers={}", case.tokio_workers))
         .inv(env.invocations))
 }
